@@ -121,8 +121,13 @@ def generate(rng, tier):
                                   flavour="asan", tags=("dmg_" + what,)))
     # targeted shapes: probability exactly 2^14 (table field boundary), >2 renormalisation bytes per symbol
     for kind in ("halfprob", "longtail"):
-        for _ in range(6 if thorough else 1):
+        for it in range(6 if thorough else (2 if kind == "halfprob" else 1)):
             syms = rand_syms(rng, 0, kind)
+            if kind == "halfprob" and it == 0:
+                # always present: 513 symbols at 15 precision bits, symbol 0 has probability exactly 2^14 (the
+                # boundary between the two- and three-byte table entries)
+                syms = [0] * 512 + list(range(1, 513))
+                rng.shuffle(syms)
             for method in (("-", "1") if thorough or kind == "halfprob" else ("1",)):
                 for level in ("-", "10"):
                     s = ",".join(map(str, syms))
